@@ -168,8 +168,8 @@ def run_case(case, ctx):
                     # a sub-sample sitting on a box edge may fall on either side: one sub-sample per edge
                     tol += 2.0 * S.amplitude_bound(ax, inj['sig']) / inj['opts']['f_subsamples']
                     obs.count('box_edge_tolerance_cases')
-                if not inj['opts']['integrate_f_profile'] and inj['sig']['f']['kind'] != 'box':
-                    tol = 0.0       # same frequencies, same arithmetic: exact
+                # never exact: numpy's vectorised exp/sin/... may round differently for arrays of another
+                # length or alignment (SIMD body vs scalar remainder), so equal inputs can differ by an ulp
                 if np.any(inside):
                     e = float(np.max(np.abs(ret[:, inside] - full[:, inside])))
                     if e > tol:
